@@ -50,7 +50,7 @@ def run(res):
         return res.finish()
     C.decide(res, "C03", data, key, "C03/processModifiersCore+modifier-methods", describe=describe)
     res.coverage["rule"] = ("every history of length <=2 (thorough <=3) over 14 ops (4 flags, Default/DefaultFunc/Prefault/PrefaultFunc x valid/invalid argument, "
-        "identity Overwrite, always-true Refine) plus random histories up to length 5, x 21 schema types (string, stringptr, int, int8, int64ptr, uint16, float64, float32, bool, "
+        "identity Overwrite, always-true Refine) plus random histories up to length 5, x 30 schema types (string, stringptr, int, int8, int64ptr, uint16, float64, float32, bool, "
         "slice, object, record, array, enum, literal, any, unknown, union, intersection, discriminated union, lazy) x inputs {nil, typed nil pointer, valid, invalid}. distinct = distinct op lines.")
     res.assumptions += ["sentinel default/prefault values identify the source of a returned value", "lenient reading when both default kinds are set"]
     return res.finish()
